@@ -1,6 +1,7 @@
 """Contradiction / deviance lints over libawkward methods (Engler-style: the code states a belief in one place
 and breaks it in another).  Each was written after a genuine defect of that shape was confirmed on the pinned tree;
 each is a structural necessary condition on named constructs."""
+import re
 from ..facts import find_all
 from ..core import AnalysisError, load_table
 from . import callsites as cs
@@ -1519,7 +1520,7 @@ _OWN_META_TABLE = {
 
 
 def _node_kind(c):
-    c = str(c).replace("Of", "")
+    c = re.sub(r"Of(?=$|<)", "", str(c))     # IndexedArrayOf<...> -> IndexedArray; not the "Of" inside ListOffsetArray
     for n, k in _NODE_KIND:
         if c.startswith(n):
             return k
@@ -1583,6 +1584,24 @@ def rule_rebuilt_simplified(rep, fb, floor=25, name="CANON.rebuilt-simplified"):
                         ok = True
             r.check(ok, "%s#%s#%d" % (f["qual"], m[1], n), "%s:%d" % (f["file"], m[-1] if isinstance(m[-1], int) else f["line"]),
                     "%s wraps the result of an operation on its content in a %s without simplifying it" % (f["qual"], m[1]), detail="simplify_*type() applied")
+    # methods of the base class run for every node class: an IndexedArray / IndexedOptionArray wrapped around `this` (shallow_copy()) may wrap an option
+    for f in fb.lib_funcs(inst=False):
+        if (f.get("cls") or "") != "Content":
+            continue
+        simplified = set()
+        for m in find_all(f["body"], lambda k: k[0] == "mcall" and k[1] in ("simplify_optiontype", "simplify_uniontype")):
+            for x in find_all((m[3],), lambda k: k[0] in ("make", "ctor")):
+                simplified.add(id(x))
+            for v in find_all((m[3],), lambda k: k[0] == "var"):
+                simplified.add(("var", v[1]))
+        n = 0
+        for m in find_all(f["body"], lambda k: k[0] in ("make", "ctor") and _node_kind(k[1]) in ("option", "indexed") and len(k[2]) >= 3):
+            if not find_all(tuple(m[2]), lambda k: k[0] == "mcall" and k[1] == "shallow_copy"):
+                continue
+            n += 1
+            viavar = any(("var", d[1]) in simplified for d in find_all(f["body"], lambda k: k[0] == "decl" and k[3] is not None and find_all((k[3],), lambda x: x is m)))
+            r.check(id(m) in simplified or viavar, "%s#%s(shallow_copy)#%d" % (f["qual"], m[1], n), "%s:%d" % (f["file"], m[-1] if isinstance(m[-1], int) else f["line"]),
+                    "%s wraps the array itself (shallow_copy()) in a %s without simplify_optiontype(): for an option or indexed array this nests two index nodes, which the validity check rejects" % (f["qual"], m[1]), detail="simplify_optiontype() applied")
     return r.done()
 
 
